@@ -40,6 +40,7 @@ func explore(args []string) int {
 	reps := fs.Int("reps", 2, "executions of every transaction on sibling branches (C07)")
 	repsAudit := fs.Int("reps-audit", 4, "executions of attestation transactions")
 	second := fs.Bool("second-app", false, "also execute every transaction in a second application instance (C07)")
+	roundTrips := fs.Int("roundtrips", 0, "states at which the genesis export/import round trip is recorded")
 	allPaths := fs.Bool("all-paths", false, "execute every input path completely")
 	maxHeight := fs.Int64("maxheight", 0, "skip NextBlock beyond this height (0 = no bound)")
 	if err := fs.Parse(args); err != nil {
@@ -77,7 +78,7 @@ func explore(args []string) int {
 		return 2
 	}
 	e, err := Explore(w, wr, Options{PathFile: *paths, Alphabet: al, Nodes: *nodes, Seed: *seed, Shard: *shard, Shards: *shards,
-		Reps: *reps, RepsAudit: *repsAudit, MaxHeight: *maxHeight, AllPaths: *allPaths, SecondApp: *second})
+		Reps: *reps, RepsAudit: *repsAudit, MaxHeight: *maxHeight, AllPaths: *allPaths, SecondApp: *second, RoundTrips: *roundTrips})
 	if cerr := wr.Close(); err == nil {
 		err = cerr
 	}
